@@ -1170,7 +1170,9 @@ pub mod implementations {
 
         let variable = PrimitiveFlagsPair::new(arg, VariableFlags(READ_ONLY));
 
-        ctx.register_export(export_name.to_owned(), variable.clone())?;
+        // `export_special` declares a class; where the declaration sits in a function or a
+        // loop body it runs more than once
+        ctx.set_export(export_name.to_owned(), variable.clone())?;
         ctx.ref_variable(Cow::Owned(name.to_owned()), variable);
 
         Ok(())
